@@ -305,3 +305,25 @@ class Sim:
             o = self.obj(ch["obj"])
             changes.append([getattr(o, ch["attr"]), self._new_for(ch)])
         return ModelingUpdate(changes, simulation_date=datetime.fromisoformat(op["date"]))
+
+    def op_restart(self, op):
+        """Save, quit, reopen: only the JSON text survives.  Returns (saved dict, reloaded World)."""
+        import json
+        from efootprint.api_utils.system_to_json import system_to_json
+        from efootprint.api_utils.json_to_system import json_to_system
+        saved = system_to_json(self.world.system, save_calculated_attributes=bool(op.get("with_calc")))
+        text = json.dumps(saved)
+        data = json.loads(text)
+        if op.get("v9"):
+            data["efootprint_version"] = "9.1.4"
+            if "Device" in data:
+                data["Hardware"] = data.pop("Device")
+        class_obj_dict, flat = json_to_system(data)
+        new = S.World(self.world.salt)
+        for obj in flat.values():
+            if obj.name in new.objs:
+                raise AssertionError(f"two reloaded objects named {obj.name}")
+            new.objs[obj.name] = obj
+        systems = list(class_obj_dict.get("System", {}).values())
+        new.system = systems[0] if systems else None
+        return saved, new
